@@ -72,7 +72,7 @@ class H(dict):
             flags=[], solver="default", timeout=600, mem_gb=12, tiers=("quick", "thorough"),
             expect="pass", covers=None, isr=None, ignore=[], depth=None, finding=None,
             excludes=[], weight=1, recursion_is_violation=False, cflags=[], what="",
-            pre=None, no_cover=False, replay_cflags=[], drop_flags=[], cover_timeout=None, bounds={}, nobody_ok=[],
+            pre=None, no_cover=False, replay_cflags=[], drop_flags=[], replay_mode='native', cover_timeout=None, bounds={}, nobody_ok=[],
         )
         d.update(kw)
         super().__init__(d)
@@ -379,6 +379,17 @@ class Runner:
     def replay(self, h, entry, outdir):
         """build the harness natively and run it on the values of the trace"""
         os.makedirs(outdir, exist_ok=True)
+        if h.replay_mode == "trace" or h.isr:
+            # preemptions inserted by goto-instrument --isr sit between machine instructions of the
+            # main flow; the native build has no such call sites, so the solver's trace (with the
+            # placement of every env_step call) is the artefact
+            with open(os.path.join(outdir, "trace.txt"), "w") as f:
+                f.write("property: %s\ndescription: %s\nlocation: %s\n\n" % (entry["property"], entry["description"], entry["loc"]))
+                f.write("\n".join(trace_summary(entry.get("trace") or [], maxn=4000)))
+            with open(os.path.join(outdir, "run.sh"), "w") as f:
+                f.write("#!/bin/sh\n# instruction-level preemption schedule: not replayable natively; see trace.txt\ncat %s/trace.txt | tail -60\nexit 1\n" % outdir)
+            os.chmod(os.path.join(outdir, "run.sh"), 0o755)
+            return True, "solver trace only (ISR schedule; no native replay possible)"
         vals = trace_inputs(entry.get("trace") or [])
         with open(os.path.join(outdir, "inputs.txt"), "w") as f:
             f.write("# ND() draws in trace order for %s / %s\n" % (h.name, entry["property"]))
